@@ -434,7 +434,13 @@ MUTANTS: List[Dict[str, Any]] = [
         "id": "summary-links-to-last-row-of-year",
         "what": "Summary lines link to the last gain/loss row of the year instead of the first",
         "checks": ["C19"],
-        "edits": [{"file": "rp2/plugin/report/rp2_full_report.py", "old": "            if gain_loss.taxable_event.timestamp.year != year:\n                self.__tax_sheet_year_2_row", "new": "            if True:\n                self.__tax_sheet_year_2_row"}],
+        "edits": [{"file": "rp2/plugin/report/rp2_full_report.py", "old": "            if gain_loss.taxable_event.timestamp.year != year and gain_loss.taxable_event.timestamp.year not in linked_years:\n                self.__tax_sheet_year_2_row", "new": "            if True:\n                self.__tax_sheet_year_2_row"}],
+    },
+    {
+        "id": "revert-FX6",
+        "what": "the (asset, year) -> first row map is overwritten by later blocks of the same year (the defect fixed by FX6)",
+        "checks": ["C19"],
+        "edits": [{"file": "rp2/plugin/report/rp2_full_report.py", "old": " and gain_loss.taxable_event.timestamp.year not in linked_years:", "new": ":"}],
     },
     {
         "id": "jp-chain-to-year-minus-one",
